@@ -402,16 +402,15 @@ impl EntriesIter {
             }
         }
 //@ endins
-//@ ins before#-1 re⟦return None;⟧
-            proof {
-                assert(keep == keeps(o, f, entry, depth as int));
-                assert(tail(o, self.deferred@, depth as int) == mee);
-            }
-//@ endins
-//@ ins before re⟦if keep \{\s*Some\(Ok\(entry\)\)⟧
+//@ ins before re⟦if self\.opts\.contents_first && [^{;]*\{⟧
         proof {
             assert(keep == keeps(o, f, entry, depth as int));
-            lemma_finish(keep, pushed, entry, mee, inner, w, r0, rem(o, f, self.iters@, self.deferred@));
+            if o.contents_first && pushed {
+                // the directory is deferred: its slot is what `me` denotes
+                assert(tail(o, df0.push(if keep { Some(entry) } else { None }), depth as int) == mee);
+            } else {
+                lemma_finish(keep, pushed, entry, mee, inner, w, r0, rem(o, f, self.iters@, self.deferred@));
+            }
         }
 //@ endins
     fn process(&mut self, entry: VfsEntry) -> (r: Option<RvResult<VfsEntry>>)
